@@ -142,3 +142,46 @@ Theorem C16_body_reencode_stable :
 Proof. exact BodyProofs.body_fixpoint. Qed.
 Eval compute in "PA:C16_body_reencode_stable"%string.
 Print Assumptions C16_body_reencode_stable.
+
+(** * Typed query strings, through the derive model *)
+From C16 Require Query QueryProofs.
+
+(** The per-endpoint obligation on the query structs regenerated from the source (the
+    #[ruma_api(query)] members; 43 endpoints whose members are leaves, Option<leaf> or Vec<leaf>):
+    member names distinct, and every member that may be left out is re-created by the missing-member rule. *)
+Theorem C16_query_schemas_wf : forallb BodyProofs.query_ok EndpointBodies.endpoint_queries = true.
+Proof. exact BodyProofs.query_schemas_wf. Qed.
+Eval compute in "PA:C16_query_schemas_wf"%string.
+Print Assumptions C16_query_schemas_wf.
+
+(** Writing the query members as key / value pairs and reading them back gives the same values, for
+    every identifier validator, given that Rust's integer parser reads what its formatter writes - for
+    every value outside two stated classes ([QueryProofs.ok_q]): [Some] of a value that prints as the empty
+    string (it reads back as [None]: the open finding C16-optional-query-empty, witness below) and an empty
+    list for a required repeated parameter. *)
+Theorem C16_typed_query_roundtrip :
+  forall valid parse_int,
+  (forall lo hi z, (lo <= z <= hi)%Z -> parse_int (lo <? 0)%Z (JsonText.print_Z z) = Some z) ->
+  forall ep fs vs, In (ep, Serde.TStruct fs) EndpointBodies.endpoint_queries -> QueryProofs.ok_q_fields valid fs vs ->
+  exists q, Query.qser fs vs = Some q /\ Query.qdeser valid parse_int fs q = Some vs.
+Proof. exact BodyProofs.typed_query_roundtrip. Qed.
+Eval compute in "PA:C16_typed_query_roundtrip"%string.
+Print Assumptions C16_typed_query_roundtrip.
+
+(** The class is not vacuous: GET /publicRooms with [since: Some("")] is written as `since=` and read
+    back as [since: None]. *)
+Theorem C16_optional_query_empty_witness :
+  exists fs, Run.find_query s!"ruma_client_api::directory::get_public_rooms::v3" EndpointBodies.endpoint_queries = Some fs /\
+  exists vs vs' q,
+    Query.qdeser SerdeBridge.id_valid Run.rust_parse_int fs [(s!"limit", s!"5"); (s!"since", s!"x")] = Some vs /\
+    Query.qser fs (List.map (fun v => match v with Serde.VSome (Serde.VStr _) => Serde.VSome (Serde.VStr []) | _ => v end) vs) = Some q /\
+    Query.qdeser SerdeBridge.id_valid Run.rust_parse_int fs q = Some vs' /\
+    In (Serde.VSome (Serde.VStr [])) (List.map (fun v => match v with Serde.VSome (Serde.VStr _) => Serde.VSome (Serde.VStr []) | _ => v end) vs) /\
+    ~ In (Serde.VSome (Serde.VStr [])) vs'.
+Proof.
+  eexists. split; [vm_compute; reflexivity|]. do 3 eexists. repeat split; try (vm_compute; reflexivity).
+  - vm_compute. tauto.
+  - vm_compute. intros H. repeat (destruct H as [H|H]; [discriminate|]). exact H.
+Qed.
+Eval compute in "PA:C16_optional_query_empty_witness"%string.
+Print Assumptions C16_optional_query_empty_witness.
